@@ -66,6 +66,8 @@ ALPHA = [
     {"op": "addrel", "p": "m1", "c": "e1", "l": 3, "retype": True},
     {"op": "addrel", "p": "m1", "c": "e1", "l": 1, "retype": True},      # the relation exists from the start: refused, nothing may stick
     {"op": "reopen"},
+    # a hand-made level-2 row that no Parent chain explains (e1 over m1): replacing m1's parent later leaves it alone
+    {"op": "addrel", "p": "e1", "c": "m1", "l": 2, "retype": False},
 ]
 
 
